@@ -35,7 +35,7 @@ class C07(c01.C01):
     def run_case(self, case):
         spec = case['spec']
         cross = self.cross_flows(spec)
-        if case.get('twin_without_ext') and cross and not any(z['gov']['form'] == 'gold' for z in spec['zones']):
+        if case.get('twin_without_ext') and cross and not any(z['gov']['form'] in ('gold', 'gold_cb') for z in spec['zones']):
             return self.run_refusal(case)
         res = c01.solve_and_judge(case, self.which, in_situ=False)
         if res['verdict'] in ('held', 'violated'):
